@@ -91,6 +91,18 @@ PROPS = {
              "thorough": {"runs": 600000, "max_wall_s": 1500, "minimise_s": 60}},
         ],
     },
+    "C03": {
+        "level": "exploration",
+        "rule": "one run = an endpoint (smtp or lmtp, deferred or immediate sender reject, optional 'all concurrency N' limit) with a real pipeline built from config nodes (single target, or per-domain destinations with 1-2 targets and a rejecting default), 0-2 scripted global checks, optional scripted modifier, fault plans on every target stage (Start/AddRcpt/Body/BodyNonAtomic/Commit/Abort), check verdicts and modifier stages; 1-2 scripted clients run 1-3 transactions each (valid/invalid senders, SMTPUTF8, 1-4 recipients incl. unknown domains, endings DATA / RSET / disconnect / disconnect mid-DATA / QUIT / NOOP / nested MAIL); non-trivial = a fault fired, a client disconnected or a preemption was taken",
+        "real": ["internal/endpoint/smtp (Session, Endpoint.Init/setConfig)", "go-smtp server (foxcpp fork) on a simulated listener", "internal/msgpipeline (config parser, routing, check runner, deliveries)", "internal/limits", "framework/buffer (RAM)", "testing/synctest fake clock"],
+        "stub": ["delivery targets, checks, modifier (scripted actors registered as module instances)", "SMTP clients (scripted)", "network (simnet)", "DNS (empty mockdns zone)"],
+        "assumptions": COMMON_ASSUME,
+        "parts": [
+            {"pkg": "ep", "world": "ep",
+             "quick": {"runs": 3000, "max_wall_s": 150, "minimise_s": 20},
+             "thorough": {"runs": 300000, "max_wall_s": 1500, "minimise_s": 60}},
+        ],
+    },
 }
 
 # ---------------------------------------------------------------- manifest metadata
@@ -124,6 +136,10 @@ META = {
             "design_ref": "DESIGN.md section 6 (C11)",
             "level_text": "Controlled-interleaving exploration with the limits group built by its own Init; invariant checked at every acquisition, capacity probed after quiescence, key populations beyond the bucket-table capacity included.",
             "level_note": "Deliveries are tasks calling the limits API; endings at each SMTP stage are represented by which permits a task takes and when it releases."},
+    "C03": {"technique": "deterministic simulation: scripted SMTP/LMTP clients against the real endpoint+pipeline over a simulated network, fault plans on targets/checks/modifiers, typestate monitor on every delivery and reply/commit agreement oracle",
+            "design_ref": "DESIGN.md section 6 (C03)",
+            "level_text": "Seeded exploration of command sequences and fault plans; every delivery object is typestate-monitored, replies are matched with what the targets committed, permits probed after the sessions.",
+            "level_note": "Targets/checks/modifiers are scripted; BDAT and AUTH sequences are not generated in this world (AUTH is covered by C14's world)."},
 }
 
 NOT_APPLICABLE = [
